@@ -1,5 +1,6 @@
 from contracts.alignment import CONTRACTS as _C
-CONTRACTS = list(_C)
+from contracts.values import FormatValuesLength
+CONTRACTS = list(_C) + [FormatValuesLength]
 
 MANIFEST = {
     "category": "proof",
